@@ -1,0 +1,227 @@
+// Copyright 2020-2025 Buf Technologies, Inc.
+//
+// Licensed under the Apache License, Version 2.0 (the "License");
+// you may not use this file except in compliance with the License.
+// You may obtain a copy of the License at
+//
+//      http://www.apache.org/licenses/LICENSE-2.0
+//
+// Unless required by applicable law or agreed to in writing, software
+// distributed under the License is distributed on an "AS IS" BASIS,
+// WITHOUT WARRANTIES OR CONDITIONS OF ANY KIND, either express or implied.
+// See the License for the specific language governing permissions and
+// limitations under the License.
+
+//go:build verif
+
+package bufimagemodify
+
+// Contracts for the gocv verifier (see /verif/DESIGN.md). Comment-only. Author: ca-r4c.
+//
+// C18: "to the value determined by override-before-default precedence": the documented default formula of each
+// managed option, as a function of the file's package / path and the prefix / suffix in force.
+//
+// java_package = [prefix "."] package ["." suffix]; a file without a package gets no value.
+//@ pure func getJavaPackageValue(imageFile, stringOverrideOptions) (r)
+//@   property C18
+//@   ensures no-package-no-value: imageFile.FileDescriptorProto().GetPackage() == "" ==> r == ""
+//@   ensures prefix-package-suffix: imageFile.FileDescriptorProto().GetPackage() != "" ==> r == ite(stringOverrideOptions.prefix != "", stringOverrideOptions.prefix + ".", "") + imageFile.FileDescriptorProto().GetPackage() + ite(stringOverrideOptions.suffix != "", "." + stringOverrideOptions.suffix, "")
+//@   canary ensures r == ""
+//
+// csharp_namespace = [prefix "."] PascalCased package; no package, no value.
+//@ pure func getCsharpNamespaceValue(imageFile, prefix) (r)
+//@   property C18
+//@   ensures no-package-no-value: csharpNamespaceValue(imageFile) == "" ==> r == ""
+//@   ensures prefix-dot-namespace: csharpNamespaceValue(imageFile) != "" ==> r == ite(prefix != "", prefix + ".", "") + csharpNamespaceValue(imageFile)
+//
+// csharpNamespaceValue: the package with every "."-separated part PascalCased (stringutil.ToPascalCase: trusted,
+// uninterpreted casing helper), joined by "." again; no package, no value.
+//@ pure func csharpNamespaceValue(imageFile) (r)
+//@   property C18
+//@   ensures no-package-no-value: imageFile.FileDescriptorProto().GetPackage() == "" ==> r == ""
+//@   ensures pascal-parts-joined-by-dot: imageFile.FileDescriptorProto().GetPackage() != "" ==> (exists q []string :: len(q) == len(strings.Split(imageFile.FileDescriptorProto().GetPackage(), ".")) && (forall j int :: 0 <= j && j < len(q) ==> q[j] == stringutil.ToPascalCase(strings.Split(imageFile.FileDescriptorProto().GetPackage(), ".")[j])) && r == strings.Join(q, "."))
+//@   loop 0 invariant len(packageParts) == len(strings.Split(pkg, "."))
+//@   loop 0 invariant forall j int :: 0 <= j && j < $i ==> packageParts[j] == stringutil.ToPascalCase(strings.Split(pkg, ".")[j])
+//@   loop 0 invariant forall j int :: $i <= j && j < len(packageParts) ==> packageParts[j] == strings.Split(pkg, ".")[j]
+//@   canary ensures r == ""
+//
+// ruby_package default: PascalCased parts joined by "::".
+//@ pure func rubyPackageValue(imageFile) (r)
+//@   property C18
+//@   ensures no-package-no-value: imageFile.FileDescriptorProto().GetPackage() == "" ==> r == ""
+//@   ensures pascal-parts-joined-by-colons: imageFile.FileDescriptorProto().GetPackage() != "" ==> (exists q []string :: len(q) == len(strings.Split(imageFile.FileDescriptorProto().GetPackage(), ".")) && (forall j int :: 0 <= j && j < len(q) ==> q[j] == stringutil.ToPascalCase(strings.Split(imageFile.FileDescriptorProto().GetPackage(), ".")[j])) && r == strings.Join(q, "::"))
+//@   loop 0 invariant len(packageParts) == len(strings.Split(pkg, "."))
+//@   loop 0 invariant forall j int :: 0 <= j && j < $i ==> packageParts[j] == stringutil.ToPascalCase(strings.Split(pkg, ".")[j])
+//@   loop 0 invariant forall j int :: $i <= j && j < len(packageParts) ==> packageParts[j] == strings.Split(pkg, ".")[j]
+//@   canary ensures r == ""
+//
+// php_namespace default: PascalCased parts joined by "\"; a part that is a PHP reserved word (compared in lower case)
+// gets a trailing "_".
+//@ pure func phpNamespaceValue(imageFile) (r)
+//@   property C18
+//@   ensures no-package-no-value: imageFile.FileDescriptorProto().GetPackage() == "" ==> r == ""
+//@   ensures pascal-parts-reserved-escaped-joined-by-backslash: imageFile.FileDescriptorProto().GetPackage() != "" ==> (exists q []string :: len(q) == len(strings.Split(imageFile.FileDescriptorProto().GetPackage(), ".")) && (forall j int :: 0 <= j && j < len(q) ==> q[j] == stringutil.ToPascalCase(strings.Split(imageFile.FileDescriptorProto().GetPackage(), ".")[j]) + ite(strings.ToLower(strings.Split(imageFile.FileDescriptorProto().GetPackage(), ".")[j]) in phpReservedKeywords, "_", "")) && r == strings.Join(q, "\\"))
+//@   loop 0 invariant len(packageParts) == len(strings.Split(pkg, "."))
+//@   loop 0 invariant forall j int :: 0 <= j && j < $i ==> packageParts[j] == stringutil.ToPascalCase(strings.Split(pkg, ".")[j]) + ite(strings.ToLower(strings.Split(pkg, ".")[j]) in phpReservedKeywords, "_", "")
+//@   loop 0 invariant forall j int :: $i <= j && j < len(packageParts) ==> packageParts[j] == strings.Split(pkg, ".")[j]
+//@   canary ensures r == ""
+//
+// php_metadata_namespace default = php_namespace "\GPBMetadata"; with a suffix in force = php_namespace "\" suffix.
+//@ pure func phpMetadataNamespaceValue(imageFile) (r)
+//@   property C18
+//@   ensures no-package-no-value: phpNamespaceValue(imageFile) == "" ==> r == ""
+//@   ensures namespace-GPBMetadata: phpNamespaceValue(imageFile) != "" ==> r == phpNamespaceValue(imageFile) + "\\GPBMetadata"
+//@   canary ensures r == ""
+//@ pure func getPhpMetadataNamespaceValue(imageFile, suffix) (r)
+//@   property C18
+//@   ensures no-package-no-value: phpNamespaceValue(imageFile) == "" ==> r == ""
+//@   ensures namespace-backslash-suffix: phpNamespaceValue(imageFile) != "" ==> r == phpNamespaceValue(imageFile) + ite(suffix != "", "\\" + suffix, "")
+//
+// ruby_package with a suffix in force = ruby package "::" suffix.
+//@ pure func getRubyPackageValue(imageFile, suffix) (r)
+//@   property C18
+//@   ensures no-package-no-value: rubyPackageValue(imageFile) == "" ==> r == ""
+//@   ensures package-colons-suffix: rubyPackageValue(imageFile) != "" ==> r == rubyPackageValue(imageFile) + ite(suffix != "", "::" + suffix, "")
+//
+// java_outer_classname default: the PascalCased base name of the file ("weather.proto" -> "WeatherProto").
+//@ pure func javaOuterClassnameValue(imageFile) (r)
+//@   property C18
+//@   ensures pascal-of-base-name: r == stringutil.ToPascalCase(normalpath.Base(imageFile.Path()))
+//
+// go_package = Join(prefix, Dir(file path)), followed by ";" + the last two package parts when the package ends in a
+// version and has at least two parts ("acme.weather.v1" -> ";weatherv1"); no ";name" otherwise.
+//@ func goPackageImportPathForFile(imageFile, importPathPrefix) (r)
+//@   property C18
+//@   modifies ghost.versionConsulted
+//@   ensures versioned-gets-name: pkgVersioned(imageFile.FileDescriptorProto().GetPackage()) && len(strings.Split(imageFile.FileDescriptorProto().GetPackage(), ".")) >= 2 ==> r == path.Join(importPathPrefix, path.Dir(imageFile.Path())) + ";" + strings.Split(imageFile.FileDescriptorProto().GetPackage(), ".")[len(strings.Split(imageFile.FileDescriptorProto().GetPackage(), ".")) - 2] + strings.Split(imageFile.FileDescriptorProto().GetPackage(), ".")[len(strings.Split(imageFile.FileDescriptorProto().GetPackage(), ".")) - 1]
+//@   ensures otherwise-import-path-only: !(pkgVersioned(imageFile.FileDescriptorProto().GetPackage()) && len(strings.Split(imageFile.FileDescriptorProto().GetPackage(), ".")) >= 2) ==> r == path.Join(importPathPrefix, path.Dir(imageFile.Path()))
+//
+// objc_class_prefix default: no package, no value; never the reserved prefix "GPB" (it becomes "GPX").
+//@ func objcClassPrefixValue(imageFile) (r)
+//@   property C18
+//@   modifies ghost.versionConsulted
+//@   ensures no-package-no-value: imageFile.FileDescriptorProto().GetPackage() == "" ==> r == ""
+//@   ensures never-the-reserved-prefix: r != "GPB"
+// (not stated: "padded with X to three letters" - the engine does not relate string([]rune) to the length of the rune slice)
+//@   loop 0 invariant len(prefixParts) <= $i
+//@   loop 1 invariant true
+//
+// ---- bufimagemodify.go / field_option.go ----
+// Options: the default is to overwrite; ModifyPreserveExisting switches exactly the preserve flag on.
+//@ func newModifyOptions() (r)
+//@   property C18
+//@   ensures default-overwrites: r != nil && !r.preserveExisting
+//@ func ModifyPreserveExisting() (r)
+//@   property C18
+//@   closure 0 ensures sets-preserve-flag: modifyOptions.preserveExisting
+//@   ensures r != nil
+//
+// jstype is only permitted on the 64-bit integer field types (descriptor.proto: "The jstype option determines the
+// JavaScript type used for values of the field. The option is permitted only for 64 bit integral and fixed types
+// (int64, uint64, sint64, fixed64, sfixed64)"); numbers are FieldDescriptorProto.Type values.
+//@ pure func isJsTypePermittedForType(fieldType) (r)
+//@   property C18
+//@   ensures only-64-bit-integers: r <==> (fieldType == 3 || fieldType == 4 || fieldType == 6 || fieldType == 16 || fieldType == 18)
+//@   canary ensures r
+//
+// Modify / the single-option entry point: with managed mode disabled nothing is called and nothing is swept; no
+// modifier is ever handed a well-known-type file.
+//@ func Modify(image, config, options) (err)
+//@   property C18
+//@   modifies heap, ghost.cbCalls, ghost.cbArgs, ghost.cbArg0, ghost.cbArg1, ghost.cbArg2, ghost.cbArg3, ghost.sweepCount, ghost.fail, ghost.wfail
+//@   ensures disabled-untouched: !config.Enabled() ==> err == nil && ghost.cbCalls == old(ghost.cbCalls) && ghost.cbArgs == old(ghost.cbArgs) && ghost.sweepCount == old(ghost.sweepCount)
+//@   ensures wkt-never-modified: forall x ref :: x in ghost.cbArg1 && !(x in old(ghost.cbArg1)) ==> (exists i int :: 0 <= i && i < len(image.Files()) && x == image.Files()[i] && !datawkt.Exists(image.Files()[i].Path()))
+// The documented managed options (buf.gen.yaml reference in `buf generate --help`: java_package, java_multiple_files,
+// java_outer_classname, java_string_check_utf8, go_package, optimize_for, csharp_namespace, ruby_package,
+// objc_class_prefix, php_namespace, php_metadata_namespace, cc_enable_arenas, jstype): Modify runs the modifier of
+// each of them on a successful run over an image with at least one governed file, and runs nothing else.
+//@   ensures only-documented-modifiers-run: forall f ref :: ghost.cbCalls[f] != old(ghost.cbCalls)[f] ==> (f == modifyCcEnableArenas || f == modifyCsharpNamespace || f == modifyGoPackage || f == modifyJavaMultipleFiles || f == modifyJavaOuterClass || f == modifyJavaPackage || f == modifyJavaStringCheckUtf8 || f == modifyObjcClassPrefix || f == modifyOptimizeFor || f == modifyPhpMetadataNamespace || f == modifyPhpNamespace || f == modifyRubyPackage || f == modifyJsType)
+//@   ensures every-documented-option-attempted: err == nil && config.Enabled() && (exists i int :: 0 <= i && i < len(image.Files()) && !datawkt.Exists(image.Files()[i].Path())) ==> ghost.cbCalls[modifyCcEnableArenas] > old(ghost.cbCalls)[modifyCcEnableArenas] && ghost.cbCalls[modifyCsharpNamespace] > old(ghost.cbCalls)[modifyCsharpNamespace] && ghost.cbCalls[modifyGoPackage] > old(ghost.cbCalls)[modifyGoPackage] && ghost.cbCalls[modifyJavaMultipleFiles] > old(ghost.cbCalls)[modifyJavaMultipleFiles] && ghost.cbCalls[modifyJavaOuterClass] > old(ghost.cbCalls)[modifyJavaOuterClass] && ghost.cbCalls[modifyJavaPackage] > old(ghost.cbCalls)[modifyJavaPackage] && ghost.cbCalls[modifyJavaStringCheckUtf8] > old(ghost.cbCalls)[modifyJavaStringCheckUtf8] && ghost.cbCalls[modifyObjcClassPrefix] > old(ghost.cbCalls)[modifyObjcClassPrefix] && ghost.cbCalls[modifyOptimizeFor] > old(ghost.cbCalls)[modifyOptimizeFor] && ghost.cbCalls[modifyPhpMetadataNamespace] > old(ghost.cbCalls)[modifyPhpMetadataNamespace] && ghost.cbCalls[modifyPhpNamespace] > old(ghost.cbCalls)[modifyPhpNamespace] && ghost.cbCalls[modifyRubyPackage] > old(ghost.cbCalls)[modifyRubyPackage] && ghost.cbCalls[modifyJsType] > old(ghost.cbCalls)[modifyJsType]
+//@ func modifyImageForSingleOption(image, config, modifyFunc, options) (err)
+//@   property C18
+//@   modifies heap, ghost.cbCalls, ghost.cbArgs, ghost.cbArg0, ghost.cbArg1, ghost.cbArg2, ghost.cbArg3, ghost.sweepCount, ghost.fail, ghost.wfail
+//@   ensures disabled-untouched: !config.Enabled() ==> err == nil && ghost.cbCalls == old(ghost.cbCalls) && ghost.cbArgs == old(ghost.cbArgs) && ghost.sweepCount == old(ghost.sweepCount)
+//@   ensures wkt-never-modified: forall x ref :: x in ghost.cbArg1 && !(x in old(ghost.cbArg1)) ==> (exists i int :: 0 <= i && i < len(image.Files()) && x == image.Files()[i] && !datawkt.Exists(image.Files()[i].Path()))
+//@   ensures only-the-given-modifier-runs: forall f ref :: ghost.cbCalls[f] != old(ghost.cbCalls)[f] ==> f == modifyFunc
+//@   ensures given-modifier-attempted: err == nil && config.Enabled() && (exists i int :: 0 <= i && i < len(image.Files()) && !datawkt.Exists(image.Files()[i].Path())) ==> ghost.cbCalls[modifyFunc] > old(ghost.cbCalls)[modifyFunc]
+//
+// The thirteen single-option entry points ("ModifyX modifies the X option"): each runs the modifier of ITS option and
+// no other one.
+//@ func ModifyJavaOuterClass(image, config, options) (err)
+//@   property C18
+//@   modifies heap, ghost.cbCalls, ghost.cbArgs, ghost.cbArg0, ghost.cbArg1, ghost.cbArg2, ghost.cbArg3, ghost.sweepCount, ghost.fail, ghost.wfail
+//@   ensures disabled-untouched: !config.Enabled() ==> err == nil && ghost.cbCalls == old(ghost.cbCalls) && ghost.sweepCount == old(ghost.sweepCount)
+//@   ensures only-own-modifier-runs: forall f ref :: ghost.cbCalls[f] != old(ghost.cbCalls)[f] ==> f == modifyJavaOuterClass
+//@   ensures own-modifier-attempted: err == nil && config.Enabled() && (exists i int :: 0 <= i && i < len(image.Files()) && !datawkt.Exists(image.Files()[i].Path())) ==> ghost.cbCalls[modifyJavaOuterClass] > old(ghost.cbCalls)[modifyJavaOuterClass]
+//@ func ModifyJavaPackage(image, config, options) (err)
+//@   property C18
+//@   modifies heap, ghost.cbCalls, ghost.cbArgs, ghost.cbArg0, ghost.cbArg1, ghost.cbArg2, ghost.cbArg3, ghost.sweepCount, ghost.fail, ghost.wfail
+//@   ensures disabled-untouched: !config.Enabled() ==> err == nil && ghost.cbCalls == old(ghost.cbCalls) && ghost.sweepCount == old(ghost.sweepCount)
+//@   ensures only-own-modifier-runs: forall f ref :: ghost.cbCalls[f] != old(ghost.cbCalls)[f] ==> f == modifyJavaPackage
+//@   ensures own-modifier-attempted: err == nil && config.Enabled() && (exists i int :: 0 <= i && i < len(image.Files()) && !datawkt.Exists(image.Files()[i].Path())) ==> ghost.cbCalls[modifyJavaPackage] > old(ghost.cbCalls)[modifyJavaPackage]
+//@ func ModifyGoPackage(image, config, options) (err)
+//@   property C18
+//@   modifies heap, ghost.cbCalls, ghost.cbArgs, ghost.cbArg0, ghost.cbArg1, ghost.cbArg2, ghost.cbArg3, ghost.sweepCount, ghost.fail, ghost.wfail
+//@   ensures disabled-untouched: !config.Enabled() ==> err == nil && ghost.cbCalls == old(ghost.cbCalls) && ghost.sweepCount == old(ghost.sweepCount)
+//@   ensures only-own-modifier-runs: forall f ref :: ghost.cbCalls[f] != old(ghost.cbCalls)[f] ==> f == modifyGoPackage
+//@   ensures own-modifier-attempted: err == nil && config.Enabled() && (exists i int :: 0 <= i && i < len(image.Files()) && !datawkt.Exists(image.Files()[i].Path())) ==> ghost.cbCalls[modifyGoPackage] > old(ghost.cbCalls)[modifyGoPackage]
+//@ func ModifyObjcClassPrefix(image, config, options) (err)
+//@   property C18
+//@   modifies heap, ghost.cbCalls, ghost.cbArgs, ghost.cbArg0, ghost.cbArg1, ghost.cbArg2, ghost.cbArg3, ghost.sweepCount, ghost.fail, ghost.wfail
+//@   ensures disabled-untouched: !config.Enabled() ==> err == nil && ghost.cbCalls == old(ghost.cbCalls) && ghost.sweepCount == old(ghost.sweepCount)
+//@   ensures only-own-modifier-runs: forall f ref :: ghost.cbCalls[f] != old(ghost.cbCalls)[f] ==> f == modifyObjcClassPrefix
+//@   ensures own-modifier-attempted: err == nil && config.Enabled() && (exists i int :: 0 <= i && i < len(image.Files()) && !datawkt.Exists(image.Files()[i].Path())) ==> ghost.cbCalls[modifyObjcClassPrefix] > old(ghost.cbCalls)[modifyObjcClassPrefix]
+//@ func ModifyCsharpNamespace(image, config, options) (err)
+//@   property C18
+//@   modifies heap, ghost.cbCalls, ghost.cbArgs, ghost.cbArg0, ghost.cbArg1, ghost.cbArg2, ghost.cbArg3, ghost.sweepCount, ghost.fail, ghost.wfail
+//@   ensures disabled-untouched: !config.Enabled() ==> err == nil && ghost.cbCalls == old(ghost.cbCalls) && ghost.sweepCount == old(ghost.sweepCount)
+//@   ensures only-own-modifier-runs: forall f ref :: ghost.cbCalls[f] != old(ghost.cbCalls)[f] ==> f == modifyCsharpNamespace
+//@   ensures own-modifier-attempted: err == nil && config.Enabled() && (exists i int :: 0 <= i && i < len(image.Files()) && !datawkt.Exists(image.Files()[i].Path())) ==> ghost.cbCalls[modifyCsharpNamespace] > old(ghost.cbCalls)[modifyCsharpNamespace]
+//@ func ModifyPhpNamespace(image, config, options) (err)
+//@   property C18
+//@   modifies heap, ghost.cbCalls, ghost.cbArgs, ghost.cbArg0, ghost.cbArg1, ghost.cbArg2, ghost.cbArg3, ghost.sweepCount, ghost.fail, ghost.wfail
+//@   ensures disabled-untouched: !config.Enabled() ==> err == nil && ghost.cbCalls == old(ghost.cbCalls) && ghost.sweepCount == old(ghost.sweepCount)
+//@   ensures only-own-modifier-runs: forall f ref :: ghost.cbCalls[f] != old(ghost.cbCalls)[f] ==> f == modifyPhpNamespace
+//@   ensures own-modifier-attempted: err == nil && config.Enabled() && (exists i int :: 0 <= i && i < len(image.Files()) && !datawkt.Exists(image.Files()[i].Path())) ==> ghost.cbCalls[modifyPhpNamespace] > old(ghost.cbCalls)[modifyPhpNamespace]
+//@ func ModifyPhpMetadataNamespace(image, config, options) (err)
+//@   property C18
+//@   modifies heap, ghost.cbCalls, ghost.cbArgs, ghost.cbArg0, ghost.cbArg1, ghost.cbArg2, ghost.cbArg3, ghost.sweepCount, ghost.fail, ghost.wfail
+//@   ensures disabled-untouched: !config.Enabled() ==> err == nil && ghost.cbCalls == old(ghost.cbCalls) && ghost.sweepCount == old(ghost.sweepCount)
+//@   ensures only-own-modifier-runs: forall f ref :: ghost.cbCalls[f] != old(ghost.cbCalls)[f] ==> f == modifyPhpMetadataNamespace
+//@   ensures own-modifier-attempted: err == nil && config.Enabled() && (exists i int :: 0 <= i && i < len(image.Files()) && !datawkt.Exists(image.Files()[i].Path())) ==> ghost.cbCalls[modifyPhpMetadataNamespace] > old(ghost.cbCalls)[modifyPhpMetadataNamespace]
+//@ func ModifyRubyPackage(image, config, options) (err)
+//@   property C18
+//@   modifies heap, ghost.cbCalls, ghost.cbArgs, ghost.cbArg0, ghost.cbArg1, ghost.cbArg2, ghost.cbArg3, ghost.sweepCount, ghost.fail, ghost.wfail
+//@   ensures disabled-untouched: !config.Enabled() ==> err == nil && ghost.cbCalls == old(ghost.cbCalls) && ghost.sweepCount == old(ghost.sweepCount)
+//@   ensures only-own-modifier-runs: forall f ref :: ghost.cbCalls[f] != old(ghost.cbCalls)[f] ==> f == modifyRubyPackage
+//@   ensures own-modifier-attempted: err == nil && config.Enabled() && (exists i int :: 0 <= i && i < len(image.Files()) && !datawkt.Exists(image.Files()[i].Path())) ==> ghost.cbCalls[modifyRubyPackage] > old(ghost.cbCalls)[modifyRubyPackage]
+//@ func ModifyCcEnableArenas(image, config, options) (err)
+//@   property C18
+//@   modifies heap, ghost.cbCalls, ghost.cbArgs, ghost.cbArg0, ghost.cbArg1, ghost.cbArg2, ghost.cbArg3, ghost.sweepCount, ghost.fail, ghost.wfail
+//@   ensures disabled-untouched: !config.Enabled() ==> err == nil && ghost.cbCalls == old(ghost.cbCalls) && ghost.sweepCount == old(ghost.sweepCount)
+//@   ensures only-own-modifier-runs: forall f ref :: ghost.cbCalls[f] != old(ghost.cbCalls)[f] ==> f == modifyCcEnableArenas
+//@   ensures own-modifier-attempted: err == nil && config.Enabled() && (exists i int :: 0 <= i && i < len(image.Files()) && !datawkt.Exists(image.Files()[i].Path())) ==> ghost.cbCalls[modifyCcEnableArenas] > old(ghost.cbCalls)[modifyCcEnableArenas]
+//@ func ModifyJavaMultipleFiles(image, config, options) (err)
+//@   property C18
+//@   modifies heap, ghost.cbCalls, ghost.cbArgs, ghost.cbArg0, ghost.cbArg1, ghost.cbArg2, ghost.cbArg3, ghost.sweepCount, ghost.fail, ghost.wfail
+//@   ensures disabled-untouched: !config.Enabled() ==> err == nil && ghost.cbCalls == old(ghost.cbCalls) && ghost.sweepCount == old(ghost.sweepCount)
+//@   ensures only-own-modifier-runs: forall f ref :: ghost.cbCalls[f] != old(ghost.cbCalls)[f] ==> f == modifyJavaMultipleFiles
+//@   ensures own-modifier-attempted: err == nil && config.Enabled() && (exists i int :: 0 <= i && i < len(image.Files()) && !datawkt.Exists(image.Files()[i].Path())) ==> ghost.cbCalls[modifyJavaMultipleFiles] > old(ghost.cbCalls)[modifyJavaMultipleFiles]
+//@ func ModifyJavaStringCheckUtf8(image, config, options) (err)
+//@   property C18
+//@   modifies heap, ghost.cbCalls, ghost.cbArgs, ghost.cbArg0, ghost.cbArg1, ghost.cbArg2, ghost.cbArg3, ghost.sweepCount, ghost.fail, ghost.wfail
+//@   ensures disabled-untouched: !config.Enabled() ==> err == nil && ghost.cbCalls == old(ghost.cbCalls) && ghost.sweepCount == old(ghost.sweepCount)
+//@   ensures only-own-modifier-runs: forall f ref :: ghost.cbCalls[f] != old(ghost.cbCalls)[f] ==> f == modifyJavaStringCheckUtf8
+//@   ensures own-modifier-attempted: err == nil && config.Enabled() && (exists i int :: 0 <= i && i < len(image.Files()) && !datawkt.Exists(image.Files()[i].Path())) ==> ghost.cbCalls[modifyJavaStringCheckUtf8] > old(ghost.cbCalls)[modifyJavaStringCheckUtf8]
+//@ func ModifyOptimizeFor(image, config, options) (err)
+//@   property C18
+//@   modifies heap, ghost.cbCalls, ghost.cbArgs, ghost.cbArg0, ghost.cbArg1, ghost.cbArg2, ghost.cbArg3, ghost.sweepCount, ghost.fail, ghost.wfail
+//@   ensures disabled-untouched: !config.Enabled() ==> err == nil && ghost.cbCalls == old(ghost.cbCalls) && ghost.sweepCount == old(ghost.sweepCount)
+//@   ensures only-own-modifier-runs: forall f ref :: ghost.cbCalls[f] != old(ghost.cbCalls)[f] ==> f == modifyOptimizeFor
+//@   ensures own-modifier-attempted: err == nil && config.Enabled() && (exists i int :: 0 <= i && i < len(image.Files()) && !datawkt.Exists(image.Files()[i].Path())) ==> ghost.cbCalls[modifyOptimizeFor] > old(ghost.cbCalls)[modifyOptimizeFor]
+//@ func ModifyJsType(image, config, options) (err)
+//@   property C18
+//@   modifies heap, ghost.cbCalls, ghost.cbArgs, ghost.cbArg0, ghost.cbArg1, ghost.cbArg2, ghost.cbArg3, ghost.sweepCount, ghost.fail, ghost.wfail
+//@   ensures disabled-untouched: !config.Enabled() ==> err == nil && ghost.cbCalls == old(ghost.cbCalls) && ghost.sweepCount == old(ghost.sweepCount)
+//@   ensures only-own-modifier-runs: forall f ref :: ghost.cbCalls[f] != old(ghost.cbCalls)[f] ==> f == modifyJsType
+//@   ensures own-modifier-attempted: err == nil && config.Enabled() && (exists i int :: 0 <= i && i < len(image.Files()) && !datawkt.Exists(image.Files()[i].Path())) ==> ghost.cbCalls[modifyJsType] > old(ghost.cbCalls)[modifyJsType]
